@@ -180,7 +180,15 @@ impl<'a> ParamsSequence<'a> {
 				self.0 = "";
 				return None;
 			}
-			b'[' | b',' => json = &json[1..],
+			b'[' => {
+				json = &json[1..];
+				// An array without elements may still contain whitespace, i.e. `[ ]`.
+				if json.trim_start_matches([' ', '\t', '\n', '\r']).starts_with(']') {
+					self.0 = "";
+					return None;
+				}
+			}
+			b',' => json = &json[1..],
 			_ => {
 				let errmsg = format!("Invalid params. Expected one of '[', ']' or ',' but found {json:?}");
 				return Some(Err(invalid_params(errmsg)));
